@@ -23,6 +23,7 @@ type retryItem struct {
 	depth  int
 	result interface{}
 	cancel bool
+	wraps  bool // the payload error itself wraps another error (fmt.Errorf("...%w", inner)): its identity must survive
 }
 
 func parseRetryItem(w string) (retryItem, bool) {
@@ -39,7 +40,16 @@ func parseRetryItem(w string) (retryItem, bool) {
 	case 'o':
 		it.result = atoi(w[1:])
 	case 'e':
-		it.id = atoi(w[1:])
+		// e<id> or e<id>:<partial result> — a plain failure may come with a (to be discarded) partial result
+		p := strings.Split(w[1:], ":")
+		it.id = atoi(p[0])
+		if len(p) == 2 {
+			it.result = atoi(p[1])
+		}
+	case 'F':
+		it.wraps = true
+		it.kind = 'f'
+		fallthrough
 	case 'f':
 		p := strings.Split(w[1:], ":")
 		if len(p) != 3 {
@@ -70,9 +80,12 @@ func execRetry(t *trace, script []string) {
 			rate, c := atoi(f[1]), atoi(f[2])
 			d := bigbuff.VerifCalcExponentialRetry(time.Duration(rate), uint32(c))
 			t.Line(fmt.Sprintf("calcobs %d %d %d", rate, c, int64(d)), "ok")
-		case "unpack":
+		case "unpack", "unpackw":
 			d, id := atoi(f[1]), atoi(f[2])
 			base := fmt.Errorf("e%d", id)
+			if f[0] == "unpackw" {
+				base = fmt.Errorf("e%d: %w", id, fmt.Errorf("inner cause"))
+			}
 			var err error = base
 			for i := 0; i < d; i++ {
 				err = bigbuff.FatalError(err)
@@ -167,9 +180,12 @@ func retryOne(f []string) string {
 		case 'e':
 			b := fmt.Errorf("e%d", it.id)
 			bases[it.id] = b
-			return nil, b
+			return it.result, b
 		default:
 			b := fmt.Errorf("e%d", it.id)
+			if it.wraps {
+				b = fmt.Errorf("e%d: %w", it.id, fmt.Errorf("inner cause of e%d", it.id))
+			}
 			bases[it.id] = b
 			var err error = b
 			for i := 0; i < it.depth; i++ {
@@ -264,6 +280,9 @@ func genRetry(r *rng.R, tier string, i int) []string {
 		line += " " + cm
 		for k := 0; k < n; k++ {
 			it := fmt.Sprintf("e%d", r.Intn(5))
+			if r.Chance(35) {
+				it += fmt.Sprintf(":%d", 1+r.Intn(99)) // a partial result next to the (plain) error
+			}
 			if r.Chance(8) {
 				it += "!"
 			}
@@ -273,9 +292,9 @@ func genRetry(r *rng.R, tier string, i int) []string {
 		case 0, 1:
 			line += fmt.Sprintf(" o%d", r.Intn(100))
 		case 2:
-			line += fmt.Sprintf(" f%d:%d:%d", 1+r.Intn(4), r.Intn(5), r.Intn(100))
+			line += fmt.Sprintf(" %s%d:%d:%d", []string{"f", "F"}[r.Intn(2)], 1+r.Intn(4), r.Intn(5), r.Intn(100))
 		case 3:
-			line += fmt.Sprintf(" f%d:%d:n", 1+r.Intn(4), r.Intn(5))
+			line += fmt.Sprintf(" %s%d:%d:n", []string{"f", "F"}[r.Intn(2)], 1+r.Intn(4), r.Intn(5))
 		case 4:
 			line += fmt.Sprintf(" o%d!", r.Intn(100))
 		}
@@ -295,7 +314,7 @@ func genRetry(r *rng.R, tier string, i int) []string {
 	}
 	for j := 0; j < 10; j++ {
 		s = append(s, fmt.Sprintf("calc %d %d", []int{1, 3, 1000, 300000000}[r.Intn(4)], r.Intn(41)))
-		s = append(s, fmt.Sprintf("unpack %d %d", r.Intn(6), r.Intn(9)))
+		s = append(s, fmt.Sprintf("unpack %d %d", r.Intn(6), r.Intn(9)), fmt.Sprintf("unpackw %d %d", r.Intn(6), r.Intn(9)))
 	}
 	return s
 }
